@@ -569,7 +569,7 @@ Proof. apply sv_wf_iter, run_ops_wf_from, sv_wf_new. Qed.
 
 
 (* ====================================================================================== *)
-(* 4. The acceptance matrices equal the specification                                      *)
+(* 4. The acceptance matrices and the specification                                        *)
 (* ====================================================================================== *)
 
 Lemma all_bases_complete b : In b all_bases.
@@ -580,27 +580,33 @@ Proof. destruct n; unfold all_ntypes; simpl; tauto. Qed.
 (* the finite part: 35 leaf carriers x 20 native types, both directions, by computation *)
 Lemma native_sweep_ser :
   forallb (fun b => forallb (fun n =>
-    Bool.eqb (ser_accepts (KBase b) (TNative n)) (spec_compat Ser (KBase b) (TNative n)) &&
-    Bool.eqb (spec_compat Ser (KBase b) (TNative n)) (doc_compat Ser (KBase b) (TNative n))) all_ntypes) all_bases = true.
+    Bool.eqb (ser_accepts (KBase b) (TNative n)) (doc_compat Ser (KBase b) (TNative n))) all_ntypes) all_bases = true.
 Proof. vm_compute. reflexivity. Qed.
 
 Lemma native_sweep_deser :
   forallb (fun b => forallb (fun n =>
     implb (deser_impl (KBase b))
-          (Bool.eqb (deser_accepts (KBase b) (TNative n)) (spec_compat De (KBase b) (TNative n)) &&
+          (Bool.eqb (deser_accepts (KBase b) (TNative n)) (doc_compat De (KBase b) (TNative n)) &&
            implb (emptiable b && deser_accepts (KBase b) (TNative n)) (supports_empty (TNative n)))) all_ntypes) all_bases = true.
 Proof. vm_compute. reflexivity. Qed.
 
-Lemma native_ser b n : ser_accepts (KBase b) (TNative n) = spec_compat Ser (KBase b) (TNative n).
+Lemma native_ser b n : ser_accepts (KBase b) (TNative n) = doc_compat Ser (KBase b) (TNative n).
 Proof.
   pose proof native_sweep_ser as H. rewrite forallb_forall in H. specialize (H b (all_bases_complete b)).
   rewrite forallb_forall in H. specialize (H n (all_ntypes_complete n)).
-  apply andb_prop in H as [H _]. apply Bool.eqb_prop in H. exact H.
+  apply Bool.eqb_prop in H. exact H.
 Qed.
 
-Lemma base_ser b t : ser_accepts (KBase b) t = spec_compat Ser (KBase b) t.
+(* at a leaf carrier other than Unset the flags and the position do not matter *)
+Lemma compat_base_any r r' d top top' b t : b <> BUnset ->
+  compat r d top (KBase b) t = compat r' d top' (KBase b) t.
+Proof. intros H. destruct b; try reflexivity. congruence. Qed.
+
+Lemma base_code b t top : ser_accepts (KBase b) t = compat as_code Ser top (KBase b) t.
 Proof.
-  destruct t as [n| | | | | |]; [apply native_ser|..]; destruct b; reflexivity.
+  destruct b; try (destruct top; reflexivity);
+    (rewrite (compat_base_any as_code docs_only Ser top true) by discriminate;
+     destruct t as [n| | | | | |]; [apply native_ser|reflexivity..]).
 Qed.
 
 Lemma all2_ext {A B} (f g : A -> B -> bool) l : Forall (fun x => forall y, f x y = g x y) l ->
@@ -624,7 +630,6 @@ Proof.
   apply all2_length in E. apply Nat.leb_le in E. now rewrite E.
 Qed.
 
-(* under the premise that no position of the pair is in the known class *)
 Lemma all2_ext_cond {A B} (f g c : A -> B -> bool) l :
   Forall (fun x => forall y, c x y = false -> f x y = g x y) l ->
   forall m, any2 c l m = false -> all2 f l m = all2 g l m.
@@ -634,75 +639,161 @@ Proof.
   now rewrite Hx, IH.
 Qed.
 
-Theorem matrix_ser k : forall t, known_class k t = false -> ser_accepts k t = spec_compat Ser k t.
+Lemma all2_impl {A B} (f g : A -> B -> bool) l :
+  Forall (fun x => forall y, f x y = true -> g x y = true) l ->
+  forall m, all2 f l m = true -> all2 g l m = true.
 Proof.
-  unfold spec_compat.
-  induction k using carrier_ind'; intros t Hk; cbn [ser_accepts compat known_class is_ser is_de negb andb orb] in *;
-    try reflexivity; try (apply IHk; exact Hk).
-  - apply base_ser.
-  - rewrite IHk by exact Hk. reflexivity.
-  - destruct t; try reflexivity; try (apply IHk; exact Hk).
-    apply orb_false_elim in Hk as [H1 H2]. apply negb_false_iff in H1. rewrite H1, andb_true_r. now apply IHk.
-  - destruct t; try reflexivity; try (apply IHk; exact Hk).
-    apply orb_false_elim in Hk as [H1 H2]. apply negb_false_iff in H1. rewrite H1, andb_true_r. now apply IHk.
-  - destruct t; try reflexivity; apply IHk; exact Hk.
-  - destruct t; try reflexivity; apply IHk; exact Hk.
-  - destruct t; try reflexivity. apply orb_false_elim in Hk as [H1 H2]. now rewrite IHk1, IHk2.
-  - destruct t; try reflexivity. apply orb_false_elim in Hk as [H1 H2]. now rewrite IHk1, IHk2.
+  induction 1 as [|x l Hx _ IH]; intros m Hm; [reflexivity|].
+  destruct m as [|y m]; [discriminate|]. cbn [all2] in *. apply andb_prop in Hm as [H1 H2].
+  now rewrite (Hx y H1), (IH m H2).
+Qed.
+
+(* The code's serialisation matrix, WITHOUT any premise: it is the documentation plus the three
+   concessions, minus the vector element rule (flag r_vec) - at every position, every depth *)
+Theorem code_matrix k : forall top t, ser_accepts k t = compat as_code Ser top k t.
+Proof.
+  induction k using carrier_ind'; intros top t; [apply base_code|..];
+    cbn [ser_accepts compat is_ser is_de negb andb orb as_code r_tuple r_set r_unset r_vec];
+    rewrite ?orb_true_r; cbn [andb]; try reflexivity; try (apply (IHk top)).
+  - now rewrite (IHk top).
+  - destruct t; try reflexivity; rewrite ?andb_true_r; apply (IHk false).
+  - destruct t; try reflexivity; rewrite ?andb_true_r; apply (IHk false).
+  - destruct t; try reflexivity; apply (IHk false).
+  - destruct t; try reflexivity; apply (IHk false).
+  - destruct t; try reflexivity. now rewrite (IHk1 false), (IHk2 false).
+  - destruct t; try reflexivity. now rewrite (IHk1 false), (IHk2 false).
   - destruct t; try reflexivity. rewrite (all2_leb ser_accepts). f_equal.
-    apply all2_ext_cond with (c := known_class); [|exact Hk]. exact H.
+    apply all2_ext. eapply Forall_impl; [|exact H]. intros a Ha y. apply Ha.
 Qed.
 
-(* what the documentation lists is inside the specification and outside the known class *)
-Lemma native_doc_spec b n : doc_compat Ser (KBase b) (TNative n) = spec_compat Ser (KBase b) (TNative n).
+(* more concessions, or a position nearer the bind marker, only add pairs *)
+Definition relax_le (r r' : relax) : Prop :=
+  (r_tuple r = true -> r_tuple r' = true) /\ (r_set r = true -> r_set r' = true) /\
+  (r_unset r = true -> r_unset r' = true) /\ (r_vec r = true -> r_vec r' = true).
+
+Lemma implb_orb a b a' b' : (a = true -> a' = true) -> (b = true -> b' = true) -> a || b = true -> a' || b' = true.
+Proof. intros Ha Hb H. apply orb_prop in H as [H|H]; [rewrite (Ha H); reflexivity|rewrite (Hb H); apply orb_true_r]. Qed.
+
+Theorem compat_mono r r' d : relax_le r r' ->
+  forall k top top' t, (top = true -> top' = true) -> compat r d top k t = true -> compat r' d top' k t = true.
 Proof.
-  pose proof native_sweep_ser as H. rewrite forallb_forall in H. specialize (H b (all_bases_complete b)).
-  rewrite forallb_forall in H. specialize (H n (all_ntypes_complete n)).
-  apply andb_prop in H as [_ H]. apply Bool.eqb_prop in H. symmetry. exact H.
+  intros (Ht & Hs & Hu & Hv). induction k using carrier_ind'; intros top top' t Htop Hc;
+    cbn [compat] in *; try exact Hc; try (eapply IHk; eassumption).
+  - destruct b; try exact Hc. apply andb_prop in Hc as [H1 H2]. rewrite H1. cbn [andb].
+    revert H2. apply implb_orb; assumption.
+  - apply andb_prop in Hc as [H1 H3]. apply andb_prop in H1 as [H1 H2]. rewrite H1. cbn [andb].
+    rewrite (implb_orb _ _ _ _ Htop Hu H2). cbn [andb]. eapply IHk; eassumption.
+  - apply andb_prop in Hc as [H1 H2]. rewrite H1. cbn [andb]. eapply IHk; eassumption.
+  - destruct t; try discriminate; try (eapply IHk; [|exact Hc]; auto).
+    apply andb_prop in Hc as [H1 H2]. rewrite (IHk false false _ (fun x => x) H1). cbn [andb].
+    destruct (is_de d); [reflexivity|]. cbn [orb] in *.
+    apply orb_prop in H2 as [H2|H2]; [rewrite (Hv H2); reflexivity|rewrite H2; apply orb_true_r].
+  - apply andb_prop in Hc as [H0 Hc]. rewrite H0. cbn [andb].
+    destruct t; try discriminate; try (eapply IHk; [|exact Hc]; auto).
+    apply andb_prop in Hc as [H1 H2]. rewrite (IHk false false _ (fun x => x) H1). cbn [andb].
+    apply orb_prop in H2 as [H2|H2]; [now rewrite (Hv H2)|rewrite H2; now rewrite orb_true_r].
+  - destruct t; try discriminate.
+    + apply andb_prop in Hc as [H1 H2]. apply andb_prop in H1 as [H0 H1]. rewrite (Hs H0), H1. cbn [andb].
+      eapply IHk; [|exact H2]; auto.
+    + eapply IHk; [|exact Hc]; auto.
+  - destruct t; try discriminate.
+    + apply andb_prop in Hc as [H1 H2]. apply andb_prop in H1 as [H0 H1]. rewrite (Hs H0), H1. cbn [andb].
+      eapply IHk; [|exact H2]; auto.
+    + eapply IHk; [|exact Hc]; auto.
+  - destruct t; try discriminate. apply andb_prop in Hc as [H1 H2].
+    rewrite (IHk1 false false _ (fun x => x) H1), (IHk2 false false _ (fun x => x) H2). reflexivity.
+  - destruct t; try discriminate. apply andb_prop in Hc as [H1 H2].
+    rewrite (IHk1 false false _ (fun x => x) H1), (IHk2 false false _ (fun x => x) H2). reflexivity.
+  - destruct t; try discriminate. apply andb_prop in Hc as [H1 H2].
+    assert (G : all2 (compat r' d false) ks ts = true).
+    { apply (all2_impl (compat r d false)); [|exact H2]. eapply Forall_impl; [|exact H].
+      intros a Ha y Hy. apply (Ha false false y (fun x => x) Hy). }
+    rewrite G, andb_true_r.
+    destruct (r_tuple r && is_ser d) eqn:E.
+    + apply andb_prop in E as [E1 E2]. rewrite (Ht E1), E2. exact H1.
+    + destruct (r_tuple r' && is_ser d); [|exact H1]. apply Nat.eqb_eq in H1. rewrite H1. apply Nat.leb_refl.
+  - apply andb_prop in Hc as [H0 Hc]. rewrite H0. cbn [andb].
+    destruct t; try discriminate; (eapply IHk; [|exact Hc]; auto).
+  - apply andb_prop in Hc as [H0 Hc]. rewrite H0. cbn [andb].
+    destruct t; try discriminate; (eapply IHk; [|exact Hc]; auto).
+  - apply andb_prop in Hc as [H0 Hc]. rewrite H0. cbn [andb].
+    destruct t; try discriminate; (eapply IHk; [|exact Hc]; auto).
+  - apply andb_prop in Hc as [H0 Hc]. rewrite H0. cbn [andb]. destruct t; try discriminate.
+    apply andb_prop in Hc as [H1 H2].
+    rewrite (IHk1 false false _ (fun x => x) H1), (IHk2 false false _ (fun x => x) H2). reflexivity.
 Qed.
 
-Lemma all2_and {A B} (f g : A -> B -> bool) (c : A -> B -> bool) l :
-  Forall (fun x => forall y, f x y = true -> g x y = true /\ c x y = false) l ->
-  forall m, all2 f l m = true -> all2 g l m = true /\ any2 c l m = false.
+Lemma le_docs_conceded : relax_le docs_only conceded.
+Proof. repeat split; cbn; auto. Qed.
+Lemma le_conceded_code : relax_le conceded as_code.
+Proof. repeat split; cbn; auto. Qed.
+
+Lemma doc_spec k t : doc_compat Ser k t = true -> spec_compat Ser k t = true.
+Proof. apply (compat_mono docs_only conceded Ser le_docs_conceded k true true t); auto. Qed.
+Lemma spec_code k t : spec_compat Ser k t = true -> ser_accepts k t = true.
 Proof.
-  induction 1 as [|x l Hx _ IH]; intros m Hm; [destruct m; split; reflexivity|].
-  destruct m as [|y m]; [discriminate|]. cbn [all2 any2] in *. apply andb_prop in Hm as [H1 H2].
-  destruct (Hx y H1) as [-> ->]. destruct (IH m H2) as [-> ->]. split; reflexivity.
+  intros H. rewrite (code_matrix k true t).
+  apply (compat_mono conceded as_code Ser le_conceded_code k true true t); auto.
 Qed.
 
-Theorem doc_in_spec k : forall t, doc_compat Ser k t = true ->
-  spec_compat Ser k t = true /\ known_class k t = false.
+(* Outside the known class serialisation accepts exactly the pairs of the specification *)
+Theorem matrix_ser k t : known_class k t = false -> ser_accepts k t = spec_compat Ser k t.
 Proof.
-  unfold doc_compat, spec_compat.
-  induction k using carrier_ind'; intros t Hd; cbn [compat known_class is_ser is_de negb andb orb] in *;
-    try discriminate; try (split; reflexivity); try (apply IHk; exact Hd).
-  - destruct b; destruct t; try discriminate; try (split; reflexivity); split; try reflexivity; exact Hd.
-  - apply andb_prop in Hd as [H1 H2]. rewrite H1. apply IHk, H2.
-  - destruct t; try discriminate; try (apply IHk; exact Hd).
-    apply andb_prop in Hd as [H1 H2]. destruct (IHk _ H1) as [-> ->]. rewrite H2. split; reflexivity.
-  - destruct t; try discriminate; try (apply IHk; exact Hd).
-    apply andb_prop in Hd as [H1 H2]. destruct (IHk _ H1) as [-> ->]. rewrite H2. split; reflexivity.
-  - destruct t; try discriminate. apply IHk, Hd.
-  - destruct t; try discriminate. apply IHk, Hd.
-  - destruct t; try discriminate. apply andb_prop in Hd as [H1 H2].
-    destruct (IHk1 _ H1) as [-> ->]. destruct (IHk2 _ H2) as [-> ->]. split; reflexivity.
-  - destruct t; try discriminate. apply andb_prop in Hd as [H1 H2].
-    destruct (IHk1 _ H1) as [-> ->]. destruct (IHk2 _ H2) as [-> ->]. split; reflexivity.
-  - destruct t; try discriminate. apply andb_prop in Hd as [H1 H2].
-    apply Nat.eqb_eq in H1. rewrite H1, Nat.leb_refl.
-    apply (all2_and (compat false Ser) (compat true Ser) known_class ks H ts H2).
+  unfold known_class. destruct (ser_accepts k t) eqn:Ea; cbn [andb].
+  - intros H. apply negb_false_iff in H. now rewrite H.
+  - intros _. destruct (spec_compat Ser k t) eqn:Es; [|reflexivity]. apply spec_code in Es. congruence.
 Qed.
+
+(* ... which is the documentation, or one of the three concessions *)
+Theorem matrix_ser_doc k t : known_class k t = false -> ser_accepts k t = doc_compat Ser k t || relaxed k t.
+Proof.
+  intros H. rewrite (matrix_ser k t H). unfold relaxed.
+  destruct (doc_compat Ser k t) eqn:Ed; cbn [orb negb].
+  - now apply doc_spec.
+  - now rewrite andb_true_r.
+Qed.
+
+(* where no nullable element carrier sits under a vector type the missing rule is not missed *)
+Theorem hole_free k : forall top t, vector_elem_hole k t = false ->
+  compat as_code Ser top k t = compat conceded Ser top k t.
+Proof.
+  induction k using carrier_ind'; intros top t Hh;
+    cbn [compat vector_elem_hole is_ser is_de negb andb orb as_code conceded r_tuple r_set r_unset r_vec] in *;
+    try reflexivity; try (apply IHk; exact Hh).
+  - now rewrite IHk.
+  - now rewrite IHk.
+  - destruct t; try reflexivity; try (apply IHk; exact Hh).
+    apply orb_false_elim in Hh as [H1 H2]. apply negb_false_iff in H1. rewrite H1. now rewrite IHk.
+  - destruct t; try reflexivity; try (apply IHk; exact Hh).
+    apply orb_false_elim in Hh as [H1 H2]. apply negb_false_iff in H1. rewrite H1. now rewrite IHk.
+  - destruct t; try reflexivity; now rewrite IHk.
+  - destruct t; try reflexivity; now rewrite IHk.
+  - destruct t; try reflexivity. apply orb_false_elim in Hh as [H1 H2]. now rewrite IHk1, IHk2.
+  - destruct t; try reflexivity. apply orb_false_elim in Hh as [H1 H2]. now rewrite IHk1, IHk2.
+  - destruct t; try reflexivity. f_equal.
+    apply all2_ext_cond with (c := vector_elem_hole); [|exact Hh].
+    eapply Forall_impl; [|exact H]. intros a Ha y Hy. apply Ha, Hy.
+Qed.
+
+(* every pair of the known class has the shape of the defect *)
+Theorem known_class_shape k t : known_class k t = true -> vector_elem_hole k t = true.
+Proof.
+  unfold known_class. intros H. apply andb_prop in H as [Ha Hs]. apply negb_true_iff in Hs.
+  destruct (vector_elem_hole k t) eqn:Eh; [reflexivity|].
+  rewrite (code_matrix k true t), (hole_free k true t Eh) in Ha. unfold spec_compat in Hs. congruence.
+Qed.
+
+Theorem doc_in_spec k t : doc_compat Ser k t = true -> spec_compat Ser k t = true /\ known_class k t = false.
+Proof. intros H. apply doc_spec in H. split; [exact H|]. unfold known_class. rewrite H. now rewrite andb_false_r. Qed.
 
 (* every pair the documentation lists is accepted *)
 Theorem documented_accepted_ser k t : doc_compat Ser k t = true -> ser_accepts k t = true.
-Proof.
-  intros H. destruct (doc_in_spec k t H) as [Hs Hk]. now rewrite matrix_ser.
-Qed.
+Proof. intros H. now apply spec_code, doc_spec. Qed.
 
 (* ---- deserialization ---------------------------------------------------------------------- *)
 
 Lemma native_deser b n : deser_impl (KBase b) = true ->
-  deser_accepts (KBase b) (TNative n) = spec_compat De (KBase b) (TNative n) /\
+  deser_accepts (KBase b) (TNative n) = doc_compat De (KBase b) (TNative n) /\
   (emptiable b = true -> deser_accepts (KBase b) (TNative n) = true -> supports_empty (TNative n) = true).
 Proof.
   intros Hi. pose proof native_sweep_deser as H. rewrite forallb_forall in H. specialize (H b (all_bases_complete b)).
@@ -711,9 +802,11 @@ Proof.
   intros He Ha. rewrite He, Ha in H2. exact H2.
 Qed.
 
-Lemma base_deser b t : deser_impl (KBase b) = true -> deser_accepts (KBase b) t = spec_compat De (KBase b) t.
+Lemma base_deser r top b t : deser_impl (KBase b) = true -> deser_accepts (KBase b) t = compat r De top (KBase b) t.
 Proof.
-  intros Hi. destruct t as [n| | | | | |]; [apply native_deser, Hi|..]; destruct b; try reflexivity; discriminate.
+  intros Hi. destruct b; try discriminate;
+    (rewrite (compat_base_any r docs_only De top true) by discriminate;
+     destruct t as [n| | | | | |]; [apply native_deser, Hi|reflexivity..]).
 Qed.
 
 Lemma deser_accepts_eq k t : deser_accepts k t = match deser_check k t with None => true | Some _ => false end.
@@ -731,9 +824,7 @@ Lemma deser_check_tuple ks t :
   | TTuple ts => if negb (List.length ks =? List.length ts)%nat then Some TE_TupleWrongCount else deser_tuple_go ks ts
   | _ => Some TE_NotTuple
   end.
-Proof.
-  cbn [deser_check]. destruct t; reflexivity.
-Qed.
+Proof. cbn [deser_check]. destruct t; reflexivity. Qed.
 
 Lemma deser_tuple_go_all2 ks ts : List.length ks = List.length ts ->
   match deser_tuple_go ks ts with None => true | Some _ => false end = all2 deser_accepts ks ts.
@@ -749,26 +840,31 @@ Proof. destruct a, b; reflexivity. Qed.
 
 Lemma is_str_inv k : is_str k = true -> k = KBase BStr.
 Proof. destruct k as [b| | | | | | | | | | | | | | | | | | | | | | | |]; try discriminate. destruct b; try discriminate. reflexivity. Qed.
+Lemma is_slice_u8_inv k : is_slice_u8 k = true -> k = KBase BSliceU8.
+Proof. destruct k as [b| | | | | | | | | | | | | | | | | | | | | | | |]; try discriminate. destruct b; try discriminate. reflexivity. Qed.
 
-Lemma str_check t : match t_native t string_types with None => true | Some _ => false end = compat true De (KBase BStr) t.
+Lemma str_check r top t : match t_native t string_types with None => true | Some _ => false end = compat r De top (KBase BStr) t.
+Proof. destruct t as [n| | | | | |]; try reflexivity. destruct n; reflexivity. Qed.
+Lemma blob_check r top t : match t_native t [NBlob] with None => true | Some _ => false end = compat r De top (KBase BSliceU8) t.
 Proof. destruct t as [n| | | | | |]; try reflexivity. destruct n; reflexivity. Qed.
 
 Lemma emptiable_carrier_inv k : emptiable_carrier k = true -> exists b, k = KBase b /\ emptiable b = true.
 Proof. destruct k; try discriminate. intros H. eauto. Qed.
 
-Theorem matrix_deser k : forall t, deser_impl k = true -> deser_accepts k t = spec_compat De k t.
+(* on the deserialization side no concession applies: for every flag set and position *)
+Theorem matrix_deser_any r k : forall top t, deser_impl k = true -> deser_accepts k t = compat r De top k t.
 Proof.
-  induction k using carrier_ind'; intros t Hi; [exact (base_deser b t Hi)|..];
-    unfold spec_compat in *; rewrite deser_accepts_eq;
+  induction k using carrier_ind'; intros top t Hi; [exact (base_deser r top b t Hi)|..];
+    rewrite deser_accepts_eq;
     try (rewrite deser_check_tuple);
     cbn [deser_check compat deser_impl is_ser is_de negb andb orb] in *;
     try discriminate; try reflexivity;
     try (rewrite <- deser_accepts_eq; apply IHk; exact Hi).
   - (* MaybeEmpty *) apply andb_prop in Hi as [He Hi]. destruct (emptiable_carrier_inv _ He) as (b & -> & Hb).
-    rewrite <- deser_accepts_eq, (IHk t Hi).
-    destruct (compat true De (KBase b) t) eqn:Ec; [|now rewrite andb_false_r].
+    rewrite <- deser_accepts_eq, (IHk top t Hi).
+    destruct (compat r De top (KBase b) t) eqn:Ec; [|now rewrite andb_false_r].
     rewrite andb_true_r. destruct t as [n| | | | | |]; try (destruct b; discriminate).
-    symmetry. apply (native_deser b n Hi); [exact Hb|]. rewrite (IHk _ Hi). exact Ec.
+    symmetry. apply (native_deser b n Hi); [exact Hb|]. rewrite (IHk top _ Hi). exact Ec.
   - (* Ref *) apply is_str_inv in Hi. subst k. cbn [is_str]. apply str_check.
   - (* Box *) destruct (is_str k) eqn:Es.
     + apply is_str_inv in Es. subst k. apply str_check.
@@ -776,15 +872,17 @@ Proof.
   - (* Arc *) destruct (is_str k) eqn:Es.
     + apply is_str_inv in Es. subst k. apply str_check.
     + rewrite <- deser_accepts_eq. apply IHk. exact Hi.
-  - (* Cow *) apply is_str_inv in Hi. subst k. cbn [is_str]. apply str_check.
+  - (* Cow *) destruct (is_str k) eqn:Es.
+    + apply is_str_inv in Es. subst k. apply str_check.
+    + cbn [orb] in Hi. rewrite Hi. apply is_slice_u8_inv in Hi. subst k. apply blob_check.
   - (* Vec *) destruct t; try reflexivity; rewrite <- deser_accepts_eq, ?andb_true_r; apply IHk; exact Hi.
-  - (* HashSet *) destruct t; try reflexivity; rewrite <- deser_accepts_eq; apply IHk; exact Hi.
-  - (* BTreeSet *) destruct t; try reflexivity; rewrite <- deser_accepts_eq; apply IHk; exact Hi.
+  - (* HashSet *) destruct t; try reflexivity; rewrite ?andb_false_r; try reflexivity; rewrite <- deser_accepts_eq; apply IHk; exact Hi.
+  - (* BTreeSet *) destruct t; try reflexivity; rewrite ?andb_false_r; try reflexivity; rewrite <- deser_accepts_eq; apply IHk; exact Hi.
   - (* HashMap *) apply andb_prop in Hi as [H1 H2]. destruct t; try reflexivity.
-    rewrite t_and_ok, <- !deser_accepts_eq, IHk1, IHk2 by assumption. reflexivity.
+    rewrite t_and_ok, <- !deser_accepts_eq, (IHk1 false), (IHk2 false) by assumption. reflexivity.
   - (* BTreeMap *) apply andb_prop in Hi as [H1 H2]. destruct t; try reflexivity.
-    rewrite t_and_ok, <- !deser_accepts_eq, IHk1, IHk2 by assumption. reflexivity.
-  - (* Tuple *) apply andb_prop in Hi as [_ Hi]. destruct t; try reflexivity.
+    rewrite t_and_ok, <- !deser_accepts_eq, (IHk1 false), (IHk2 false) by assumption. reflexivity.
+  - (* Tuple *) apply andb_prop in Hi as [_ Hi]. destruct t; try reflexivity. rewrite andb_false_r.
     destruct (List.length ks =? List.length ts)%nat eqn:El; cbn [negb andb]; [|reflexivity].
     apply Nat.eqb_eq in El. rewrite (deser_tuple_go_all2 ks ts El).
     apply all2_ext. rewrite forallb_forall in Hi. rewrite Forall_forall in *. intros x Hx y. apply H; [exact Hx|apply Hi, Hx].
@@ -793,21 +891,12 @@ Proof.
   - (* ListIter *) destruct t; try reflexivity; rewrite <- deser_accepts_eq; apply IHk; exact Hi.
   - (* VecIter *) destruct t; try reflexivity; rewrite <- deser_accepts_eq; apply IHk; exact Hi.
   - (* MapIter *) apply andb_prop in Hi as [H1 H2]. destruct t; try reflexivity.
-    rewrite t_and_ok, <- !deser_accepts_eq, IHk1, IHk2 by assumption. reflexivity.
+    rewrite t_and_ok, <- !deser_accepts_eq, (IHk1 false), (IHk2 false) by assumption. reflexivity.
   - (* UdtIter *) destruct t; reflexivity.
 Qed.
 
-(* on the deserialization side the two relaxations do not apply: specification = documentation *)
-Lemma compat_de_lib k : forall t, compat false De k t = compat true De k t.
-Proof.
-  induction k using carrier_ind'; intros t; cbn [compat is_ser is_de negb andb orb]; try reflexivity;
-    try (apply IHk); try (now rewrite IHk);
-    try (destruct t; try reflexivity; now rewrite ?IHk, ?IHk1, ?IHk2).
-  destruct t; try reflexivity. f_equal. apply all2_ext. exact H.
-Qed.
-
 Theorem matrix_deser_doc k t : deser_impl k = true -> deser_accepts k t = doc_compat De k t.
-Proof. intros H. rewrite (matrix_deser k t H). unfold spec_compat, doc_compat. symmetry. apply compat_de_lib. Qed.
+Proof. intros H. apply matrix_deser_any, H. Qed.
 
 (* TypedRowIterator::new: the row check is the conjunction of the column checks *)
 Theorem row_accepts_spec ks cols : forallb deser_impl ks = true ->
@@ -817,6 +906,45 @@ Proof.
   apply Forall_forall. intros k Hk t. apply matrix_deser_doc, Hi, Hk.
 Qed.
 
+Lemma row_cols_ok ks : forall i cols, List.length ks = List.length cols ->
+  (row_cols i ks cols = RK_Ok <-> all2 deser_accepts ks cols = true).
+Proof.
+  induction ks as [|k ks IH]; intros i cols Hl; [destruct cols; [tauto|discriminate]|].
+  destruct cols as [|t cols]; [discriminate|]. injection Hl as Hl. cbn [row_cols all2]. unfold deser_accepts at 1.
+  destruct (deser_check k t); cbn [andb]; [split; discriminate|]. apply IH, Hl.
+Qed.
+
+Theorem row_check_ok ks cols : row_check ks cols = RK_Ok <-> row_accepts ks cols = true.
+Proof.
+  unfold row_check, row_accepts. destruct (List.length ks =? List.length cols)%nat eqn:E; cbn [andb].
+  - apply row_cols_ok. now apply Nat.eqb_eq.
+  - split; discriminate.
+Qed.
+
+Lemma all2_Forall2 {A B} (f : A -> B -> bool) l m : List.length l = List.length m -> all2 f l m = true ->
+  Forall2 (fun x y => f x y = true) l m.
+Proof.
+  revert m. induction l as [|x l IH]; intros m Hl H; destruct m as [|y m]; try discriminate; [constructor|].
+  cbn [all2] in H. apply andb_prop in H as [H1 H2]. injection Hl as Hl. constructor; [exact H1|now apply IH].
+Qed.
+
+(* the read side: a typed row iterator - the only way rows reach K::deserialize - exists only over
+   columns whose types the documentation lists for the Rust types of the row *)
+Theorem typed_rows_guard ks cols rows n : forallb deser_impl ks = true -> typed_rows ks cols rows = Ok n ->
+  n = rows /\ Forall2 (fun k t => doc_compat De k t = true) ks cols.
+Proof.
+  intros Hi. unfold typed_rows. destruct (row_check ks cols) eqn:E; try discriminate. intros H. inversion H; subst.
+  split; [reflexivity|]. apply row_check_ok in E. rewrite (row_accepts_spec ks cols Hi) in E.
+  apply andb_prop in E as [El E]. apply Nat.eqb_eq in El. now apply all2_Forall2.
+Qed.
+
+Theorem typed_rows_refuses ks cols rows : row_accepts ks cols = false -> exists e, typed_rows ks cols rows = Err e /\ e <> RK_Ok.
+Proof.
+  intros H. unfold typed_rows. destruct (row_check ks cols) eqn:E.
+  - apply row_check_ok in E. congruence.
+  - eexists; split; [reflexivity|discriminate].
+  - eexists; split; [reflexivity|discriminate].
+Qed.
 (* ====================================================================================== *)
 (* 5. The type-level matrix is what serialisation does on values (static carriers)          *)
 (* ====================================================================================== *)
@@ -1142,7 +1270,6 @@ Proof.
       * apply Exists_cons_hd. cbn [fst snd]. now apply Hk1.
       * apply Exists_cons_tl. apply IH; auto; lia.
 Qed.
-
 (* ====================================================================================== *)
 (* 6. Rows, the cap, the chunked representation used by the driver                          *)
 (* ====================================================================================== *)
@@ -1234,7 +1361,6 @@ Proof.
   intros Hc Hv Hf. unfold from_row. destruct (negb _); [eauto|].
   destruct (row_write_fails k t v Hf cols vals i [] 0 Hc Hv) as (b & c & e & ->). eauto.
 Qed.
-
 (* ====================================================================================== *)
 (* 7. The dynamic carrier: a CqlValue is accepted iff it is a value of the column type      *)
 (* ====================================================================================== *)
@@ -1526,7 +1652,6 @@ Proof.
     rewrite K1 in Hf. cbn [negb andb] in Hf. apply forallb_false_ex in Hf as (x & Hx & Hfx).
     apply fails_vector with x; [intros; apply frame_ser_dyn|exact Hx|apply IHe; [exact Hfx|exact (existsb_false _ _ K2 x Hx)]].
 Qed.
-
 (* ====================================================================================== *)
 (* 8. The buffer-level dynamic serialiser is Model/Cql.v's [ser_value]                      *)
 (* ====================================================================================== *)
@@ -1788,4 +1913,352 @@ Proof.
     apply agrees_udt_go; [eapply Forall_impl; [|exact IHfs]; intros a Ha x Hx; now apply Ha|].
     intros x Hx. rewrite forallb_forall in Hv. apply in_map_iff in Hx as ([m z] & Hz & Hin). cbn [snd] in Hz. subst z.
     exact (Hv _ Hin).
+Qed.
+
+(* ====================================================================================== *)
+(* 9. Values of every carrier: accepted iff the bytes are a value of the column type        *)
+(* ====================================================================================== *)
+
+(* a tree that IS a value of the carrier never meets the model's "ill-typed" answer: every error
+   is one of the real error kinds *)
+Definition not_ill (e : kerr) : Prop := e <> KE_IllTyped.
+Definition real_errs := errs_in not_ill.
+
+Lemma ni_ov : not_ill (KE SE_SizeOverflow). Proof. discriminate. Qed.
+Lemma ni_tm : not_ill (KE SE_TooManyElements). Proof. discriminate. Qed.
+Lemma real_fail e : real_errs (w_fail (KE e)).
+Proof. intros e' H. cbn in H. inversion H. discriminate. Qed.
+
+Lemma real_vector {A} ws fixed dim (f : A -> writer) l :
+  (forall x, In x l -> frame (f x) /\ real_errs (f x)) -> real_errs (w_vector ws fixed dim f l).
+Proof.
+  intros H. destruct (N.of_nat (List.length l) =? dim) eqn:E.
+  - apply (in_vector not_ill ni_ov); assumption.
+  - unfold w_vector. rewrite E. apply real_fail.
+Qed.
+
+Lemma real_ser_leaf b ws t x : base_payload b x = true -> real_errs (ser_leaf b ws t x).
+Proof.
+  intros Hp. destruct (native_in t (ser_base_types b)) eqn:E.
+  - apply (in_ser_leaf not_ill ni_ov); assumption.
+  - unfold ser_leaf. rewrite E. apply real_fail.
+Qed.
+
+Lemma real_dyn_tuple_go (f : ctype -> cval -> writer) ts :
+  Forall (fun et => forall x, frame (f et x) /\ real_errs (f et x)) ts -> forall l, real_errs (dyn_tuple_go f ts l).
+Proof.
+  induction 1 as [|et ts' Het Hts IH]; intros l; [apply in_ok|].
+  destruct l as [|ox l']; [apply in_ok|]. cbn [dyn_tuple_go].
+  apply in_then; [apply frame_dyn_tuple_go; eapply Forall_impl; [|exact Hts]; intros a Ha x; apply Ha| |apply IH].
+  destruct ox; [apply Het|apply in_append].
+Qed.
+
+Lemma real_dyn_udt_go (f : ctype -> cval -> writer) fts :
+  Forall (fun ft => forall x, frame (f (snd ft) x) /\ real_errs (f (snd ft) x)) fts -> forall st, real_errs (dyn_udt_go f fts st).
+Proof.
+  induction 1 as [|[fname ft] r Hft Hr IH]; intros st; cbn [dyn_udt_go].
+  - destruct (is_nil st); [apply in_ok|apply real_fail].
+  - apply in_then; [apply frame_dyn_udt_go; eapply Forall_impl; [|exact Hr]; intros a Ha x; apply Ha| |apply IH].
+    destruct (udt_field_value fname st); [apply Hft|apply in_append].
+Qed.
+
+Lemma real_ser_dyn t : forall ws v, real_errs (ser_dyn ws t v).
+Proof.
+  induction t as [n|e IHe|e IHe|k e IHk IHe|ts IHts|ks' nm' fts IHfs|e d IHe] using ctype_ind'; intros ws v.
+  all: destruct (is_leaf v) eqn:El; [rewrite ser_dyn_leaf by exact El; apply real_ser_leaf, leaf_payload_ok, El|].
+  all: destruct v; try discriminate El;
+    try (rewrite ser_dyn_tuple; destruct (_ <? _)%nat; [apply real_fail|];
+         apply (in_builder not_ill ni_ov); [apply frame_dyn_tuple_go, Forall_forall; intros; apply frame_ser_dyn|];
+         apply real_dyn_tuple_go; eapply Forall_impl; [|exact IHts]; intros a Ha x; split; [apply frame_ser_dyn|apply Ha]);
+    try (rewrite ser_dyn_udt; destruct (negb _); [apply real_fail|];
+         apply (in_builder not_ill ni_ov); [apply frame_dyn_udt_go, Forall_forall; intros; apply frame_ser_dyn|];
+         apply real_dyn_udt_go; eapply Forall_impl; [|exact IHfs]; intros a Ha x; split; [apply frame_ser_dyn|apply Ha]);
+    cbn [ser_dyn]; try apply real_fail;
+    try (destruct (supports_empty _); [apply (in_set_value not_ill ni_ov)|apply real_fail]);
+    try (apply (in_sequence not_ill ni_ov ni_tm); intros; split; [apply frame_ser_dyn|apply IHe]);
+    try (apply real_vector; intros; split; [apply frame_ser_dyn|apply IHe]);
+    try (apply (in_mapping not_ill ni_ov ni_tm); intros; split; (split; [apply frame_ser_dyn|]); [apply IHk|apply IHe]).
+Qed.
+
+Lemma in_tuple_go Q (f : carrier -> ctype -> kval -> writer) ks :
+  (forall k t v, frame (f k t v)) ->
+  forall ts vs, List.length ks = List.length vs -> (List.length ks <= List.length ts)%nat ->
+  Forall2 (fun kt v => errs_in Q (f (fst kt) (snd kt) v)) (combine ks (firstn (List.length ks) ts)) vs ->
+  errs_in Q (tuple_go f ks ts vs).
+Proof.
+  intros Ff. induction ks as [|k1 ks' IH]; intros ts vs Hl Hle HF.
+  - destruct vs; [apply in_ok|discriminate].
+  - destruct ts as [|t1 ts']; [simpl in Hle; lia|]. destruct vs as [|v1 vs']; [discriminate|].
+    cbn [tuple_go]. cbn [List.length firstn combine] in *. inversion HF; subst.
+    apply in_then.
+    + apply frame_tuple_go. apply Forall_forall. intros; apply Ff.
+    + assumption.
+    + apply IH; [lia|lia|assumption].
+Qed.
+
+Theorem real_ser_buf k : forall ws t v, has_carrier k v = true -> real_errs (ser_buf k ws t v).
+Proof.
+  induction k using carrier_ind'; intros ws t v Hv; cbn [has_carrier] in Hv; try discriminate.
+  - destruct b; destruct v; try discriminate; cbn [ser_buf]; try (apply real_ser_leaf; exact Hv); try apply in_append.
+  - destruct v; try discriminate. cbn [ser_buf]. apply real_ser_dyn.
+  - destruct v; try discriminate; cbn [ser_buf]; try apply in_append; try (now apply IHk).
+  - destruct v; try discriminate; cbn [ser_buf]; try apply in_append; try (now apply IHk).
+  - cbn [ser_buf]. destruct (negb _); [apply real_fail|].
+    destruct v; try discriminate; try apply (in_set_value not_ill ni_ov); try (now apply IHk).
+  - destruct v; try discriminate; cbn [ser_buf]; now apply IHk.
+  - destruct v; try discriminate; cbn [ser_buf]; now apply IHk.
+  - destruct v; try discriminate; cbn [ser_buf]; now apply IHk.
+  - destruct v; try discriminate; cbn [ser_buf]; now apply IHk.
+  - destruct v; try discriminate; cbn [ser_buf]; now apply IHk.
+  - destruct v; try discriminate; cbn [ser_buf]; now apply IHk.
+  - destruct v; try discriminate. rewrite forallb_forall in Hv. cbn [ser_buf].
+    destruct t; try apply real_fail; [apply (in_sequence not_ill ni_ov ni_tm)|apply (in_sequence not_ill ni_ov ni_tm)|apply real_vector];
+      intros x Hx; (split; [apply frame_ser_buf|apply IHk; auto]).
+  - destruct v; try discriminate. rewrite forallb_forall in Hv. cbn [ser_buf].
+    destruct t; try apply real_fail; [apply (in_sequence not_ill ni_ov ni_tm)|apply (in_sequence not_ill ni_ov ni_tm)|apply real_vector];
+      intros x Hx; (split; [apply frame_ser_buf|apply IHk; auto]).
+  - destruct v; try discriminate. rewrite forallb_forall in Hv. cbn [ser_buf].
+    destruct t; try apply real_fail; apply (in_sequence not_ill ni_ov ni_tm); intros x Hx; (split; [apply frame_ser_buf|apply IHk; auto]).
+  - destruct v; try discriminate. rewrite forallb_forall in Hv. cbn [ser_buf].
+    destruct t; try apply real_fail; apply (in_sequence not_ill ni_ov ni_tm); intros x Hx; (split; [apply frame_ser_buf|apply IHk; auto]).
+  - destruct v; try discriminate. rewrite forallb_forall in Hv. cbn [ser_buf].
+    destruct t; try apply real_fail. apply (in_mapping not_ill ni_ov ni_tm). intros kv Hkv.
+    specialize (Hv kv Hkv). apply andb_prop in Hv as [Hv1 Hv2].
+    split; (split; [apply frame_ser_buf|]); [apply IHk1|apply IHk2]; auto.
+  - destruct v; try discriminate. rewrite forallb_forall in Hv. cbn [ser_buf].
+    destruct t; try apply real_fail. apply (in_mapping not_ill ni_ov ni_tm). intros kv Hkv.
+    specialize (Hv kv Hkv). apply andb_prop in Hv as [Hv1 Hv2].
+    split; (split; [apply frame_ser_buf|]); [apply IHk1|apply IHk2]; auto.
+  - destruct v; try discriminate. rewrite ser_buf_tuple. destruct t; try apply real_fail.
+    apply andb_prop in Hv as [Hl Hv]. apply Nat.eqb_eq in Hl.
+    destruct (List.length ts <? List.length ks)%nat eqn:El; [apply real_fail|]. apply Nat.ltb_ge in El.
+    apply (in_builder not_ill ni_ov); [apply frame_tuple_go, Forall_forall; intros; apply frame_ser_buf|].
+    apply in_tuple_go; [intros; apply frame_ser_buf|exact Hl|exact El|].
+    revert ts l Hl Hv El. induction H as [|k1 ks' Hk1 _ IH]; intros ts vs Hl Hv El.
+    + destruct vs; [constructor|discriminate].
+    + destruct vs as [|v1 vs']; [discriminate|]. cbn [all2 List.length] in *. apply andb_prop in Hv as [Hv1 Hv2].
+      destruct ts as [|t1 ts']; [simpl in El; lia|]. cbn [firstn combine List.length] in *.
+      constructor; [cbn [fst snd]; now apply Hk1|]. apply IH; auto; lia.
+Qed.
+
+Fixpoint vfits_go (f : carrier -> ctype -> kval -> bool) (ks : list carrier) (ts : list ctype) (vs : list kval) : bool :=
+  match ks, ts, vs with
+  | k1 :: ks', t1 :: ts', v1 :: vs' => f k1 t1 v1 && vfits_go f ks' ts' vs'
+  | _, _, _ => true
+  end.
+Fixpoint vknown_go (f : carrier -> ctype -> kval -> bool) (ks : list carrier) (ts : list ctype) (vs : list kval) : bool :=
+  match ks, ts, vs with
+  | k1 :: ks', t1 :: ts', v1 :: vs' => f k1 t1 v1 || vknown_go f ks' ts' vs'
+  | _, _, _ => false
+  end.
+
+Lemma val_fits_tuple ks ts vs :
+  val_fits (KTuple ks) (TTuple ts) (VTup vs) =
+  (List.length ks <=? List.length ts)%nat && (List.length ks =? List.length vs)%nat && vfits_go val_fits ks ts vs.
+Proof.
+  cbn [val_fits]. f_equal. revert ts vs. induction ks as [|k1 ks' IH]; intros ts vs; [reflexivity|].
+  destruct ts as [|t1 ts']; [reflexivity|]. destruct vs as [|v1 vs']; [reflexivity|].
+  cbn [vfits_go]. now rewrite <- IH.
+Qed.
+Lemma val_known_tuple ks ts vs : val_known (KTuple ks) (TTuple ts) (VTup vs) = vknown_go val_known ks ts vs.
+Proof.
+  cbn [val_known]. revert ts vs. induction ks as [|k1 ks' IH]; intros ts vs; [reflexivity|].
+  destruct ts as [|t1 ts']; [reflexivity|]. destruct vs as [|v1 vs']; [reflexivity|].
+  cbn [vknown_go]. now rewrite <- IH.
+Qed.
+
+Lemma size_ov : is_size_err (KE SE_SizeOverflow) = true. Proof. reflexivity. Qed.
+Lemma size_tm : is_size_err (KE SE_TooManyElements) = true. Proof. reflexivity. Qed.
+Notation sizeQ := (fun e : kerr => is_size_err e = true).
+
+(* the bytes-level property, accepted side: a value that is a value of the column type is never
+   refused by a type check - for EVERY carrier (CqlValue at any position included) and every
+   value, populated or not *)
+Theorem val_accept k : forall ws t v, val_fits k t v = true -> size_errs (ser_buf k ws t v).
+Proof.
+  unfold size_errs.
+  induction k using carrier_ind'; intros ws t v Hf; cbn [val_fits] in Hf; try discriminate.
+  - destruct b; destruct v; try discriminate; cbn [ser_buf]; try apply in_append;
+      apply andb_prop in Hf as [H1 H2]; apply (in_ser_leaf sizeQ size_ov); assumption.
+  - destruct v; try discriminate. cbn [ser_buf]. now apply dyn_accept.
+  - destruct v; try discriminate; cbn [ser_buf]; try apply in_append; try (now apply IHk).
+  - destruct v; try discriminate; cbn [ser_buf]; try apply in_append; try (now apply IHk).
+  - apply andb_prop in Hf as [He Hf]. cbn [ser_buf]. rewrite He. cbn [negb].
+    destruct v; try discriminate; try apply (in_set_value sizeQ size_ov); try (now apply IHk).
+  - destruct v; try discriminate; cbn [ser_buf]; now apply IHk.
+  - destruct v; try discriminate; cbn [ser_buf]; now apply IHk.
+  - destruct v; try discriminate; cbn [ser_buf]; now apply IHk.
+  - destruct v; try discriminate; cbn [ser_buf]; now apply IHk.
+  - destruct v; try discriminate; cbn [ser_buf]; now apply IHk.
+  - destruct v; try discriminate; cbn [ser_buf]; now apply IHk.
+  - destruct v; try discriminate. cbn [ser_buf]. destruct t; try discriminate.
+    + rewrite forallb_forall in Hf. apply (in_sequence sizeQ size_ov size_tm). intros x Hx. split; [apply frame_ser_buf|apply IHk; auto].
+    + rewrite forallb_forall in Hf. apply (in_sequence sizeQ size_ov size_tm). intros x Hx. split; [apply frame_ser_buf|apply IHk; auto].
+    + apply andb_prop in Hf as [Hd Hf]. rewrite forallb_forall in Hf. apply (in_vector sizeQ size_ov); [exact Hd|].
+      intros x Hx. split; [apply frame_ser_buf|]. specialize (Hf x Hx). apply andb_prop in Hf as [_ Hf]. now apply IHk.
+  - destruct v; try discriminate. cbn [ser_buf]. destruct t; try discriminate.
+    + rewrite forallb_forall in Hf. apply (in_sequence sizeQ size_ov size_tm). intros x Hx. split; [apply frame_ser_buf|apply IHk; auto].
+    + rewrite forallb_forall in Hf. apply (in_sequence sizeQ size_ov size_tm). intros x Hx. split; [apply frame_ser_buf|apply IHk; auto].
+    + apply andb_prop in Hf as [Hd Hf]. rewrite forallb_forall in Hf. apply (in_vector sizeQ size_ov); [exact Hd|].
+      intros x Hx. split; [apply frame_ser_buf|]. specialize (Hf x Hx). apply andb_prop in Hf as [_ Hf]. now apply IHk.
+  - destruct v; try discriminate. cbn [ser_buf]. destruct t; try discriminate;
+      rewrite forallb_forall in Hf; apply (in_sequence sizeQ size_ov size_tm); intros x Hx; (split; [apply frame_ser_buf|apply IHk; auto]).
+  - destruct v; try discriminate. cbn [ser_buf]. destruct t; try discriminate;
+      rewrite forallb_forall in Hf; apply (in_sequence sizeQ size_ov size_tm); intros x Hx; (split; [apply frame_ser_buf|apply IHk; auto]).
+  - destruct v; try discriminate. cbn [ser_buf]. destruct t; try discriminate. rewrite forallb_forall in Hf.
+    apply (in_mapping sizeQ size_ov size_tm). intros kv Hkv. specialize (Hf kv Hkv). apply andb_prop in Hf as [H1 H2].
+    split; (split; [apply frame_ser_buf|]); [apply IHk1|apply IHk2]; auto.
+  - destruct v; try discriminate. cbn [ser_buf]. destruct t; try discriminate. rewrite forallb_forall in Hf.
+    apply (in_mapping sizeQ size_ov size_tm). intros kv Hkv. specialize (Hf kv Hkv). apply andb_prop in Hf as [H1 H2].
+    split; (split; [apply frame_ser_buf|]); [apply IHk1|apply IHk2]; auto.
+  - destruct v; try discriminate. destruct t; try discriminate. change (val_fits (KTuple ks) (TTuple ts) (VTup l) = true) in Hf.
+    rewrite val_fits_tuple in Hf. apply andb_prop in Hf as [Hf Hg]. apply andb_prop in Hf as [Hle Hl].
+    apply Nat.leb_le in Hle. apply Nat.eqb_eq in Hl. rewrite ser_buf_tuple.
+    assert ((List.length ts <? List.length ks)%nat = false) as -> by (apply Nat.ltb_ge; exact Hle).
+    apply (in_builder sizeQ size_ov); [apply frame_tuple_go, Forall_forall; intros; apply frame_ser_buf|].
+    apply in_tuple_go; [intros; apply frame_ser_buf|exact Hl|exact Hle|].
+    revert ts l Hl Hg Hle. induction H as [|k1 ks' Hk1 _ IH]; intros ts vs Hl Hg Hle.
+    + destruct vs; [constructor|discriminate].
+    + destruct vs as [|v1 vs']; [discriminate|]. destruct ts as [|t1 ts']; [simpl in Hle; lia|].
+      cbn [vfits_go firstn combine List.length] in *. apply andb_prop in Hg as [G1 G2].
+      constructor; [cbn [fst snd]; now apply Hk1|]. apply IH; auto; lia.
+Qed.
+
+(* the bytes-level property, refused side: a value that is NOT a value of the column type - the
+   misfit at any depth, in any carrier - is refused, outside the known class *)
+Theorem val_reject k : forall ws t v, has_carrier k v = true -> val_fits k t v = false -> val_known k t v = false ->
+  fails (ser_buf k ws t v).
+Proof.
+  induction k using carrier_ind'; intros ws t v Hv Hf Hk; cbn [has_carrier] in Hv; try discriminate.
+  - destruct b; destruct v; try discriminate; cbn [ser_buf val_fits] in *; try discriminate;
+      rewrite Hv, andb_true_r in Hf; apply fails_ser_leaf; exact Hf.
+  - destruct v; try discriminate. cbn [ser_buf val_fits val_known] in *. now apply dyn_reject.
+  - destruct v; try discriminate; cbn [ser_buf val_fits val_known] in *; try discriminate; now apply IHk.
+  - destruct v; try discriminate; cbn [ser_buf val_fits val_known] in *; try discriminate; now apply IHk.
+  - cbn [ser_buf val_fits val_known] in *. destruct (supports_empty t); cbn [negb andb] in *; [|apply fails_fail].
+    destruct v; try discriminate; now apply IHk.
+  - destruct v; try discriminate; cbn [ser_buf val_fits val_known] in *; now apply IHk.
+  - destruct v; try discriminate; cbn [ser_buf val_fits val_known] in *; now apply IHk.
+  - destruct v; try discriminate; cbn [ser_buf val_fits val_known] in *; now apply IHk.
+  - destruct v; try discriminate; cbn [ser_buf val_fits val_known] in *; now apply IHk.
+  - destruct v; try discriminate; cbn [ser_buf val_fits val_known] in *; now apply IHk.
+  - destruct v; try discriminate; cbn [ser_buf val_fits val_known] in *; now apply IHk.
+  - destruct v; try discriminate. rewrite forallb_forall in Hv. cbn [ser_buf val_fits val_known] in *.
+    destruct t; try apply fails_fail.
+    + apply forallb_false_ex in Hf as (x & Hx & Hfx). apply fails_sequence with x; [intros; apply frame_ser_buf|exact Hx|].
+      apply IHk; auto. exact (existsb_false _ _ Hk x Hx).
+    + apply forallb_false_ex in Hf as (x & Hx & Hfx). apply fails_sequence with x; [intros; apply frame_ser_buf|exact Hx|].
+      apply IHk; auto. exact (existsb_false _ _ Hk x Hx).
+    + destruct (N.of_nat (List.length l) =? dim) eqn:Ed; cbn [andb] in Hf; [|unfold w_vector; rewrite Ed; apply fails_fail].
+      apply forallb_false_ex in Hf as (x & Hx & Hfx). pose proof (existsb_false _ _ Hk x Hx) as Hkx. cbn beta in Hkx.
+      apply orb_false_elim in Hkx as [K1 K2]. rewrite K1 in Hfx. cbn [negb andb] in Hfx.
+      apply fails_vector with x; [intros; apply frame_ser_buf|exact Hx|]. apply IHk; auto.
+  - destruct v; try discriminate. rewrite forallb_forall in Hv. cbn [ser_buf val_fits val_known] in *.
+    destruct t; try apply fails_fail.
+    + apply forallb_false_ex in Hf as (x & Hx & Hfx). apply fails_sequence with x; [intros; apply frame_ser_buf|exact Hx|].
+      apply IHk; auto. exact (existsb_false _ _ Hk x Hx).
+    + apply forallb_false_ex in Hf as (x & Hx & Hfx). apply fails_sequence with x; [intros; apply frame_ser_buf|exact Hx|].
+      apply IHk; auto. exact (existsb_false _ _ Hk x Hx).
+    + destruct (N.of_nat (List.length l) =? dim) eqn:Ed; cbn [andb] in Hf; [|unfold w_vector; rewrite Ed; apply fails_fail].
+      apply forallb_false_ex in Hf as (x & Hx & Hfx). pose proof (existsb_false _ _ Hk x Hx) as Hkx. cbn beta in Hkx.
+      apply orb_false_elim in Hkx as [K1 K2]. rewrite K1 in Hfx. cbn [negb andb] in Hfx.
+      apply fails_vector with x; [intros; apply frame_ser_buf|exact Hx|]. apply IHk; auto.
+  - destruct v; try discriminate. rewrite forallb_forall in Hv. cbn [ser_buf val_fits val_known] in *.
+    destruct t; try apply fails_fail;
+      apply forallb_false_ex in Hf as (x & Hx & Hfx); (apply fails_sequence with x; [intros; apply frame_ser_buf|exact Hx|]);
+      apply IHk; auto; exact (existsb_false _ _ Hk x Hx).
+  - destruct v; try discriminate. rewrite forallb_forall in Hv. cbn [ser_buf val_fits val_known] in *.
+    destruct t; try apply fails_fail;
+      apply forallb_false_ex in Hf as (x & Hx & Hfx); (apply fails_sequence with x; [intros; apply frame_ser_buf|exact Hx|]);
+      apply IHk; auto; exact (existsb_false _ _ Hk x Hx).
+  - destruct v; try discriminate. rewrite forallb_forall in Hv. cbn [ser_buf val_fits val_known] in *.
+    destruct t; try apply fails_fail. apply forallb_false_ex in Hf as (kv & Hkv & Hfx).
+    pose proof (existsb_false _ _ Hk kv Hkv) as Hkk. cbn beta in Hkk. apply orb_false_elim in Hkk as [K1 K2].
+    specialize (Hv kv Hkv). apply andb_prop in Hv as [Hv1 Hv2].
+    apply fails_mapping with kv; [intros; split; apply frame_ser_buf|exact Hkv|].
+    apply andb_false_elim in Hfx as [H|H]; [left; apply IHk1|right; apply IHk2]; auto.
+  - destruct v; try discriminate. rewrite forallb_forall in Hv. cbn [ser_buf val_fits val_known] in *.
+    destruct t; try apply fails_fail. apply forallb_false_ex in Hf as (kv & Hkv & Hfx).
+    pose proof (existsb_false _ _ Hk kv Hkv) as Hkk. cbn beta in Hkk. apply orb_false_elim in Hkk as [K1 K2].
+    specialize (Hv kv Hkv). apply andb_prop in Hv as [Hv1 Hv2].
+    apply fails_mapping with kv; [intros; split; apply frame_ser_buf|exact Hkv|].
+    apply andb_false_elim in Hfx as [H|H]; [left; apply IHk1|right; apply IHk2]; auto.
+  - destruct v; try discriminate. rewrite ser_buf_tuple. destruct t; try apply fails_fail.
+    rewrite val_fits_tuple in Hf. rewrite val_known_tuple in Hk.
+    apply andb_prop in Hv as [Hl Hv]. rewrite Hl, andb_true_r in Hf. apply Nat.eqb_eq in Hl.
+    destruct (List.length ts <? List.length ks)%nat eqn:El; [apply fails_fail|]. apply Nat.ltb_ge in El.
+    assert ((List.length ks <=? List.length ts)%nat = true) as Hle by (apply Nat.leb_le; exact El).
+    rewrite Hle in Hf. cbn [andb] in Hf.
+    apply fails_builder; [apply frame_tuple_go, Forall_forall; intros; apply frame_ser_buf|].
+    apply fails_tuple_go; [intros; apply frame_ser_buf|exact Hl|exact El|].
+    clear Hle. revert ts l Hl Hv Hf Hk El. induction H as [|k1 ks' Hk1 _ IH]; intros ts vs Hl Hv Hf Hk El.
+    + discriminate.
+    + destruct vs as [|v1 vs']; [discriminate|]. destruct ts as [|t1 ts']; [simpl in El; lia|].
+      cbn [all2 vfits_go vknown_go List.length firstn combine] in *.
+      apply andb_prop in Hv as [Hv1 Hv2]. apply orb_false_elim in Hk as [K1 K2].
+      apply andb_false_elim in Hf as [Hf|Hf].
+      * apply Exists_cons_hd. cbn [fst snd]. now apply Hk1.
+      * apply Exists_cons_tl. apply IH; auto; lia.
+Qed.
+
+(* ... and the error is a real error kind: a type-check error, or one of the three checks that can
+   come before it (vector length, element count, cell size) *)
+Theorem val_reject_class k ws t v : has_carrier k v = true -> val_fits k t v = false -> val_known k t v = false ->
+  exists se, snd (ser_buf k ws t v []) = Some (KE se) /\
+             (is_typeck (KE se) = true \/ se = SE_VectorLen \/ se = SE_TooManyElements \/ se = SE_SizeOverflow).
+Proof.
+  intros Hv Hf Hk. destruct (val_reject k ws t v Hv Hf Hk) as [e He].
+  pose proof (real_ser_buf k ws t v Hv e He) as Hn. destruct e as [se|]; [|congruence].
+  exists se. split; [exact He|]. destruct se; cbn; auto.
+Qed.
+
+(* the type-level matrix and the value level: a rejected pair does not fit on any populated value *)
+Lemma all2_false_any {A B} (f : A -> B -> bool) l m : (List.length l <= List.length m)%nat -> all2 f l m = false ->
+  exists i x y, nth_error l i = Some x /\ nth_error m i = Some y /\ f x y = false.
+Proof.
+  revert m. induction l as [|x l IH]; intros m Hl H; [discriminate|]. destruct m as [|y m]; [simpl in Hl; lia|].
+  cbn [all2] in H. apply andb_false_elim in H as [H|H].
+  - exists 0%nat, x, y. auto.
+  - destruct (IH m ltac:(simpl in Hl; lia) H) as (i & a & b & ? & ? & ?). exists (S i), a, b. auto.
+Qed.
+
+(* ---- the invariant, exported: every way of building a SerializedValues establishes it ------ *)
+Theorem from_row_wf cols vals s : from_row cols vals = Ok s -> sv_wf s.
+Proof.
+  unfold from_row. destruct (negb _) eqn:El; [discriminate|]. apply negb_false_iff, Nat.eqb_eq in El.
+  destruct (row_write cols vals [] 0) as [[b cnt] [e|]] eqn:E; [discriminate|].
+  destruct (u16_max <? cnt) eqn:Ec; [discriminate|]. intros H. inversion H; subst. clear H.
+  destruct (row_write_spec _ _ _ _ _ _ El E) as (cs & -> & Hc & Hn & ->). cbn [app] in *. apply N.ltb_ge in Ec.
+  exists cs. cbn [sv_bytes sv_count]. repeat split; auto; lia.
+Qed.
+
+Theorem wf_ops_count s ops : sv_wf s ->
+  exists cells, sv_iter (fold_left apply_op ops s) = Some cells /\
+                N.of_nat (List.length cells) = sv_count (fold_left apply_op ops s) /\
+                sv_count (fold_left apply_op ops s) <= u16_max.
+Proof. intros H. apply sv_wf_iter, run_ops_wf_from, H. Qed.
+
+Theorem closure_count_ok parts n : closure_count parts = Ok n -> n = fold_left N.add parts 0 /\ n <= u16_max.
+Proof.
+  unfold closure_count. destruct (u16_max <? fold_left N.add parts 0) eqn:E; [discriminate|].
+  intros H. inversion H; subst. split; [reflexivity|]. now apply N.ltb_ge in E.
+Qed.
+
+(* reject_complete / dyn_reject with the error named *)
+Theorem reject_complete_class k ws t v : has_carrier k v = true -> populated v = true -> ser_accepts k t = false ->
+  exists se, snd (ser_buf k ws t v []) = Some (KE se) /\
+             (is_typeck (KE se) = true \/ se = SE_VectorLen \/ se = SE_TooManyElements \/ se = SE_SizeOverflow).
+Proof.
+  intros Hv Hp Ha. destruct (reject_complete k ws t v Hv Hp Ha) as [e He].
+  pose proof (real_ser_buf k ws t v Hv e He) as Hn. destruct e as [se|]; [|congruence].
+  exists se. split; [exact He|]. destruct se; cbn; auto.
+Qed.
+
+Theorem dyn_reject_class t ws v : dyn_fits t v = false -> dyn_known t v = false ->
+  exists se, snd (ser_dyn ws t v []) = Some (KE se) /\
+             (is_typeck (KE se) = true \/ se = SE_VectorLen \/ se = SE_TooManyElements \/ se = SE_SizeOverflow).
+Proof.
+  intros Hf Hk. destruct (dyn_reject t ws v Hf Hk) as [e He].
+  pose proof (real_ser_dyn t ws v e He) as Hn. destruct e as [se|]; [|congruence].
+  exists se. split; [exact He|]. destruct se; cbn; auto.
 Qed.
